@@ -860,6 +860,105 @@ def entity_oracle(sf, ents) -> tuple[list[dict], int]:
     return fails, n
 
 
+class ParentRecorder:
+    """`hierarchy` is computed once, when an entity is constructed (`_make_hierarchy` follows the
+    `parent` pointers as they are *then*); FORD later re-parents some entities (the body of a plain
+    interface block is hung below its `FortranModuleProcedureInterface` wrapper, ...) without touching
+    `hierarchy`.  The model therefore takes the parent each entity had when its hierarchy was made:
+    this recorder wraps every `_make_hierarchy` defined in sourceform and notes `self.parent` per call
+    (the last call wins, as the last assignment to `self.hierarchy` does)."""
+
+    def __init__(self, sf):
+        self.sf = sf
+        self.at_init: dict[int, object] = {}
+        self.keep: list = []
+        self._saved: list[tuple] = []
+
+    def __enter__(self):
+        rec = self
+        for cls in [c for c in vars(self.sf).values() if isinstance(c, type) and issubclass(c, self.sf.FortranBase)]:
+            f = cls.__dict__.get("_make_hierarchy")
+            if callable(f):
+                def wrapped(this, *a, _f=f, **kw):
+                    rec.at_init[id(this)] = getattr(this, "parent", None)
+                    rec.keep.append(this)
+                    return _f(this, *a, **kw)
+                self._saved.append((cls, f))
+                setattr(cls, "_make_hierarchy", wrapped)
+        return self
+
+    def reset(self):
+        self.at_init, self.keep = {}, []
+
+    def __exit__(self, *exc):
+        for cls, f in self._saved:
+            setattr(cls, "_make_hierarchy", f)
+        return False
+
+
+def source_of_request(sf, objs, at_init=None):
+    """Correspondence input for the Lean model of `hierarchy` / `source_file` / `filename`
+    (FordModel/SourceOf.lean).  From the real entity objects: the tree as (child, parent) pairs taken
+    from `e.parent` (closed under ancestors), the path of every parent-less object that has one (the
+    source files), and for every entity what the real code answers: ids of `e.hierarchy`,
+    id of `e.source_file`, `e.filename`.  -> (request fields, expected answers, kept objects) or None."""
+    ids: dict[int, int] = {}
+    keep: list = []
+
+    def num(o):
+        if id(o) not in ids:
+            ids[id(o)] = len(ids) + 1
+            keep.append(o)
+        return ids[id(o)]
+
+    pairs, paths, ents, expect = [], [], [], []
+    todo = [o for o in objs if isinstance(o, sf.FortranBase)]
+    seen = set()
+    skipped = 0
+    while todo:
+        o = todo.pop()
+        if id(o) in seen:
+            continue
+        seen.add(id(o))
+        par = at_init[id(o)] if (at_init is not None and id(o) in at_init) else getattr(o, "parent", None)
+        if par is not None:
+            pairs.append((num(o), num(par)))
+            todo.append(par)
+        else:
+            pth = getattr(o, "path", None)
+            if pth is not None:
+                paths.append((num(o), str(pth)))
+        try:
+            hier = [num(x) for x in o.hierarchy]
+            for x in o.hierarchy:
+                todo.append(x)
+            src = num(o.source_file)
+            fname = str(o.filename)
+        except Exception:  # an object that cannot say where it comes from: not comparable
+            skipped += 1
+            continue
+        ents.append(num(o))
+        expect.append((",".join(map(str, hier)) or "-", str(src), fname))
+    if any(("\t" in p_ or "\n" in p_ or any(ord(c) > 127 for c in p_)) for _, p_ in paths):
+        return None
+    fuel = len(ids) + 1
+    req = ["c10.srcof", str(fuel), str(len(pairs))] + [str(x) for pr in pairs for x in pr]
+    req += [str(len(paths))] + [x for i, p_ in paths for x in (str(i), p_)] + [str(e) for e in ents]
+    return req, expect, keep, skipped, [str(e) for e in ents]
+
+
+def source_of_compare(ans, expect, keep, ents_of_req):
+    """-> list of (entity object, model (hierarchy, source, filename), code (...)) that differ"""
+    bad = []
+    if ans[:1] != ["ok"] or len(ans) != 1 + 3 * len(expect):
+        return [(None, ans[:4], "malformed answer")]
+    for k, want in enumerate(expect):
+        got = tuple(ans[1 + 3 * k: 4 + 3 * k])
+        if got != want:
+            bad.append((keep[int(ents_of_req[k]) - 1], got, want))
+    return bad
+
+
 def check_site(proj: dict, doc, out: Path, root: Path, log, stem_of: dict, sf, rendered=None) -> tuple[list[dict], dict]:
     """Evaluate the four oracles.  Returns (failing cases, info)."""
     fails: list[dict] = []
@@ -1188,6 +1287,10 @@ def run_e2e(rep, drv, rng, n_sites, variant, workdir, projects=None) -> dict:
     requests: list[list[str]] = []
     pending: list[dict] = []  # what to compare once the driver has answered
     orig_bcc = fo.env.bytecode_cache
+    precs = ParentRecorder(sf)
+    precs.__enter__()
+    stats["source_of"] = {"entities": 0, "bad": 0, "max_depth": 0, "reparented": 0,
+                          "in_submodule_of_other_file": 0}
     sf.NameSelector.get_name = rec_get_name
     fo.Documentation.writeout = rec_writeout
     if orig_bcc is None:
@@ -1206,6 +1309,7 @@ def run_e2e(rep, drv, rng, n_sites, variant, workdir, projects=None) -> dict:
             log = _Log()
             cur["log"], cur["doc"] = log, None
             cur.update(page=None, url_depth=0, acc={})
+            precs.reset()
             t0 = time.time()
             try:
                 res = e2e.run_inprocess(pf)
@@ -1272,6 +1376,29 @@ def run_e2e(rep, drv, rng, n_sites, variant, workdir, projects=None) -> dict:
                 rep.tie_broken(f"correspondence c10b: cannot observe the src/ copy: {type(e).__name__}: {e}",
                                {"stream": STREAM, "site": k, "files": proj["files"]})
                 stats["corr_bad"] += 1
+            # hierarchy / source_file / filename of every entity object vs the model (SourceOf.lean)
+            try:
+                all_objs = _walk(list(doc.project.allfiles) + list(log.items), sf.FortranBase)
+                so = source_of_request(sf, all_objs, precs.at_init)
+                if so is not None:
+                    req, expect, keepobjs, _sk, entf = so
+                    requests.append(req)
+                    pending.append({"what": "srcof", "site": k, "files": proj["files"], "expect": expect,
+                                    "entf": entf, "names": [(type(o).__name__, getattr(o, "name", None)) for o in keepobjs]})
+                    sst = stats["source_of"]
+                    sst["entities"] += len(expect)
+                    sst["max_depth"] = max([sst["max_depth"]] + [h.count(",") + 1 for h, _, _ in expect if h != "-"])
+                    sst["reparented"] += sum(1 for o in all_objs if id(o) in precs.at_init
+                                             and precs.at_init[id(o)] is not getattr(o, "parent", None))
+                    for o in all_objs:
+                        if isinstance(o, sf.FortranSubmodule):
+                            anc = getattr(o, "ancestor_module", None)
+                            if isinstance(anc, sf.FortranBase) and anc.source_file is not o.source_file:
+                                sst["in_submodule_of_other_file"] += 1
+            except Exception as e:
+                rep.tie_broken(f"correspondence c10b: cannot observe hierarchy/source_file: {type(e).__name__}: {e}",
+                               {"stream": STREAM, "site": k, "files": proj["files"]})
+                stats["corr_bad"] += 1
             # ---- (B) oracles
             t0 = time.time()
             fails, info = check_site(proj, doc, out, root, log, stem_of, sf, rendered=cur["acc"])
@@ -1314,6 +1441,7 @@ def run_e2e(rep, drv, rng, n_sites, variant, workdir, projects=None) -> dict:
         sf.NameSelector.get_name = orig_get
         fo.Documentation.writeout = orig_write
         fo.env.bytecode_cache = orig_bcc
+        precs.__exit__(None, None, None)
         for cls, nm, val in reversed(saved_attrs):
             setattr(cls, nm, val)
         cur["log"] = None
@@ -1335,6 +1463,17 @@ def run_e2e(rep, drv, rng, n_sites, variant, workdir, projects=None) -> dict:
                     {"stream": STREAM, "site": req["site"], "files": req["files"], "variant": variant,
                      "first_difference": idx, "calls_around": [list(c) for c in req["calls"][lo:idx + 2]],
                      "model": got[lo:idx + 2], "status": ans[:1]})
+        elif req["what"] == "srcof":
+            bad = source_of_compare(ans, req["expect"], list(range(len(req["names"]))), req["entf"])
+            for idx, got, want in bad[:2]:
+                stats["corr_bad"] += 1
+                stats["source_of"]["bad"] += 1
+                who = req["names"][idx] if isinstance(idx, int) else None
+                rep.tie_broken(
+                    f"correspondence c10b: (hierarchy, source_file, filename) of {who} in site {req['site']}: "
+                    f"model {got}, implementation {want}",
+                    {"stream": STREAM, "site": req["site"], "files": req["files"], "model": list(got) if not isinstance(got, str) else got,
+                     "code": list(want) if not isinstance(want, str) else want})
         elif req["what"] == "src":
             if ans[:1] != ["ok"] or ans[1:] != req["served"]:
                 stats["corr_bad"] += 1
